@@ -177,12 +177,24 @@ def merged_equal(text, code, want):
     return True
 
 
-def run_case(case, strict=False):  # pylint: disable=unused-argument,too-many-branches,too-many-locals,too-many-statements
+def run_case(case, strict=False):  # pylint: disable=unused-argument
     tr = core.run(case, filter_factory=plugin_harness.PluginFilter)
-    out = asserts.exceptions(tr)
     cfg = case["config"]
-    ext = cfg.get("ext") or {}
-    enter, exit_ = case["meta"]["enter"], case["meta"]["exit"]
+    out, cl, nontrivial = check_trace(tr, cfg.get("ext") or {}, case["meta"]["enter"], case["meta"]["exit"])
+    for k, v in (cfg.get("ext") or {}).items():
+        cl.add("mode_" + v)
+    if cfg.get("enter_script"):
+        cl.add("enter_script")
+    if cfg.get("exit_script"):
+        cl.add("exit_script")
+    return out, {"nontrivial": nontrivial, "classes": sorted(cl), "truncated": tr.truncated,
+                 "sample": {"config": cfg, "regions": case["regions"],
+                            "prog": [i[1] if i[0] == "g" else i for i in case["prog"]]}}
+
+
+def check_trace(tr, ext, enter, exit_):  # pylint: disable=too-many-branches,too-many-locals,too-many-statements
+    """The C06 reference model applied to a trace (also used by C15)."""
+    out = asserts.exceptions(tr)
     F = asserts.F
     pending = collections.OrderedDict()
     modes_seen = set()
@@ -276,15 +288,7 @@ def run_case(case, strict=False):  # pylint: disable=unused-argument,too-many-br
         total_enter = sum(sum(1 for i in range(len(it.out)) if it.out[i:i + len(enter)] == enter) for it in tr.items)
         if total_enter != opened:
             out.append({"tag": "c06_enter_count", "at": None, "msg": "enter script emitted %d times for %d episodes" % (total_enter, opened)})
-    for k, v in ext.items():
-        cl.add("mode_" + v)
-    if cfg.get("enter_script"):
-        cl.add("enter_script")
-    if cfg.get("exit_script"):
-        cl.add("exit_script")
-    return out, {"nontrivial": nontrivial, "classes": sorted(cl), "truncated": tr.truncated,
-                 "sample": {"config": cfg, "regions": case["regions"],
-                            "prog": [i[1] if i[0] == "g" else i for i in case["prog"]]}}
+    return out, cl, nontrivial
 
 
 def selftest():
